@@ -8,15 +8,20 @@ export GOFLAGS=-mod=mod GOPROXY=off
 export VERIF_EVIDENCE_DIR=/tmp/seedrun-evidence
 name=$(basename "$dir")
 if ! git -C /repo diff --quiet; then echo "$name: /repo is not clean"; exit 2; fi
-wt=$(mktemp -d /tmp/seedconfirm.XXXX)
-git -C /repo worktree add --detach "$wt" HEAD >/dev/null 2>&1
+head=$(git -C /repo rev-parse --short HEAD)
 suite="?"
-if git -C "$wt" apply "$dir/patch.diff" 2>/dev/null; then
-  if (cd "$wt" && go build ./... 2>/dev/null); then
-    if (cd "$wt" && go test -vet=off -count=1 ./... >/tmp/seedsuite.log 2>&1); then suite=pass; else suite=FAIL; fi
-  else suite=nobuild; fi
-else suite=noapply; fi
-git -C /repo worktree remove --force "$wt" >/dev/null 2>&1; rm -rf "$wt"
+if [ -n "${SEEDCONFIRM_DIR:-}" ] && [ -f "$SEEDCONFIRM_DIR/$name.$head.status" ]; then
+  suite=$(cat "$SEEDCONFIRM_DIR/$name.$head.status") # confirmed beforehand, in parallel (tools/seedconfirm.sh)
+else
+  wt=$(mktemp -d /tmp/seedconfirm.XXXX)
+  git -C /repo worktree add --detach "$wt" HEAD >/dev/null 2>&1
+  if git -C "$wt" apply "$dir/patch.diff" 2>/dev/null; then
+    if (cd "$wt" && go build ./... 2>/dev/null); then
+      if (cd "$wt" && go test -vet=off -count=1 ./... >/tmp/seedsuite.log 2>&1); then suite=pass; else suite=FAIL; fi
+    else suite=nobuild; fi
+  else suite=noapply; fi
+  git -C /repo worktree remove --force "$wt" >/dev/null 2>&1; rm -rf "$wt"
+fi
 if [ "$suite" != pass ]; then echo "$name: suite=$suite (not a valid seeded change)"; exit 0; fi
 git -C /repo apply "$dir/patch.diff"
 start=$(date +%s)
